@@ -195,6 +195,77 @@ def ifcase_obligation(k):
                        "(case n), or to the first \\else at depth 0 (out of range or negative n selects \\else), or to the closing \\fi; nested conditionals are skipped whole (TeX.2021.509)"))
 
 
+# ---------------------------------------------------------------- \\or and \\else met while a branch is being delivered: skip to the matching \\fi
+def skip_to_fi_obligation(which, k):
+    """which: 'or' (valid inside a switch only) or 'else' (valid in a true branch or a switch)."""
+    from mir2smt.execmir import Agg, Ref, Cell, Opaque
+    base = false_case_obligation(k)
+    TRUE_B, ELSE_B, SWITCH_B = 0, 1, 2  # BranchKind discriminants (source order)
+
+    def build(sym, bind):
+        a, vals = base["build_args"](sym, bind)
+        if sym.consts is not None:
+            has = I(sym.consts.get("has_branch", 1))
+            kind = I(sym.consts.get("branch_kind", SWITCH_B))
+        else:
+            has = tm.V("has_branch")
+            sym.assumes.append(tm.and_(tm.le(I(0), has), tm.le(has, I(1))))
+            sym.vars["has_branch"] = "i32"
+            kind = tm.V("branch_kind")
+            sym.assumes.append(tm.and_(tm.le(I(0), kind), tm.le(kind, I(2))))
+            sym.vars["branch_kind"] = "i32"
+        a.update(has_branch=has, branch_kind=kind)
+        return a, vals
+
+    def env_pop_branch(ex, m, args, tys, st, fn, symargs):
+        st.log.append(("pop_branch",))
+        return [(st, Enum(symargs["has_branch"], {1: [Agg([Opaque("branch token"), Enum(symargs["branch_kind"], {}, "BranchKind")])]}, "Option"))]
+
+    def env_error(ex, m, args, tys, st, fn, symargs):
+        st.log.append(("error",))
+        return [(st, Enum(0, {0: [Agg([])]}, "Result"))]  # a recoverable error: execution continues
+
+    def env_new_error(ex, m, args, tys, st, fn, symargs):
+        return [(st, Opaque("error value"))]
+
+    def post(a, ret, st):
+        cls = a["cls"]
+        consumed = sum(1 for e in st.log if e[0] == "token")
+        errors = sum(1 for e in st.log if e[0] == "error")
+        pops = sum(1 for e in st.log if e[0] == "pop_branch")
+        if pops != 1:
+            return tm.FALSE
+        if which == "or":
+            valid = tm.and_(tm.eq(a["has_branch"], I(1)), tm.eq(a["branch_kind"], I(SWITCH_B)))
+        else:
+            valid = tm.and_(tm.eq(a["has_branch"], I(1)), tm.or_(tm.eq(a["branch_kind"], I(TRUE_B)), tm.eq(a["branch_kind"], I(SWITCH_B))))
+        if errors:
+            # misplaced: reported, nothing skipped
+            return tm.and_(tm.not_(valid), tm.B(errors == 1 and consumed == 0 and ret.tag.val == 0))
+        depth = I(0)
+        stops = []
+        for i in range(k):
+            stops.append(tm.and_(tm.eq(cls[i], I(FI)), tm.eq(depth, I(0))))
+            depth = tm.add(depth, tm.ite(tm.eq(cls[i], I(IF)), I(1), tm.ite(tm.eq(cls[i], I(FI)), I(-1), I(0))))
+        if ret.tag.val == 1:
+            return tm.and_(valid, tm.B(consumed == k and st.log[-1] == ("end_of_input",)), *[tm.not_(s_) for s_ in stops])
+        if consumed == 0:
+            return tm.FALSE
+        i = consumed - 1
+        return tm.and_(valid, stops[i], *[tm.not_(s_) for s_ in stops[:i]])
+
+    fn = {"or": "or_primitive_fn", "else": "else_primitive_fn"}[which]
+    return dict(base, name=f"c07_{which}_skips_to_fi_{k}_tokens", fn=("texlang-stdlib", fn, None, None), build_args=build, post=post,
+                env_models=base["env_models"] + [(r"^pop_branch::<S>$", env_pop_branch), (r"^<ExpansionInput<S> as (?:[a-z_]+::)*TokenStream>::error::<.*>$", env_error),
+                                                  (r"^(?:[a-z_]+::)*SimpleTokenError::new::<.*>$", env_new_error)],
+                witnesses=[("a nested conditional is skipped whole", lambda a: tm.and_(tm.eq(a["cls"][0], I(IF)), tm.eq(a["cls"][1], I(FI)), tm.eq(a["cls"][2], I(FI)), tm.eq(a["has_branch"], I(1)), tm.eq(a["branch_kind"], I(SWITCH_B)))),
+                           ("misplaced", lambda a: tm.eq(a["has_branch"], I(0)))] if k >= 3 else [],
+                funcs=[f"texlang_stdlib::conditional::{fn} (generic MIR; branch stack (pop_branch), token stream, tag lookup, component access and error reporting replaced by stubs)"],
+                bound=(f"an arbitrary top of the branch stack (none, true, else, switch) and a stream of {k} tokens with arbitrary tags: a \\{which} met while a branch is delivered pops the branch and, "
+                       f"when it is {'inside a switch' if which == 'or' else 'in a true branch or a switch'}, skips exactly the tokens up to and including the matching \\fi (nested conditionals skipped whole); "
+                       "otherwise it reports one error and consumes nothing; the only other failure is the end of the input"))
+
+
 PROP = {
     "level_text": 'Decided: the \\ifodd and \\ifnum conditions for every i32 operand (scanners stubbed); the skipping of the branch not taken (false_case) and the case selection of \\ifcase at driver level, with the token stream, the tag lookup and the branch stack replaced by stubs, for every stream prefix of <= 5 (ifcase: 4) tokens including nested conditionals. NOT decided: the \\or/\\else/\\fi primitives, \\let-aliased conditionals, \\expandafter/\\noexpand (VM-bound).',
     "title": "Conditionals deliver only the selected branch; \\expandafter acts on one token",
@@ -206,6 +277,7 @@ PROP = {
     "assumptions": ["i32::parse(input) is stubbed: returns Ok(n) for an arbitrary i32 n (its own behaviour is the subject of C06)"],
     "obligations": [
         false_case_obligation(4), false_case_obligation(5), ifcase_obligation(4),
+        skip_to_fi_obligation("or", 5), skip_to_fi_obligation("else", 5), skip_to_fi_obligation("or", 3), skip_to_fi_obligation("else", 3),
         dict(engine="B", name="c07_ifnum_condition", crates=["texlang-stdlib"], fn=("texlang-stdlib", "evaluate", "IfNum", "Condition"),
              args=[("input", "opaque ExpansionInput")],
              env_models=[(r"^<\(i32, (?:[a-z_]+::)*Ordering, i32\) as (?:[a-z_]+::)*Parsable>::parse::<.*>$", env_parse_relation)],
